@@ -291,6 +291,10 @@ def c07_1(ctx: Ctx) -> RuleResult:
                 if path is not None and not (f is V and cn in vnodes):
                     bad_path = path
             ok = bad_path is None
+            if not ok and f not in A.entries and f is not V:
+                # a private piece of the entry callables: the validation may have happened in every caller before the call
+                if _validated_in_callers(ctx, A, seen, f, 0):
+                    ok = True
             if ok or first_bad is None:
                 res.add(
                     f, n, f"read of `{what}` is preceded on every path by the point validation ({V.name})", ok,
@@ -303,6 +307,33 @@ def c07_1(ctx: Ctx) -> RuleResult:
     res.notes.append(f"entry callables: {sorted(e.qualname.rsplit('.', 1)[-1] for e in A.entries)}; validator: {V.qualname}; cache fields: {sorted(A.cache_fields)} + {A.nc_field}.{sorted(A.nc_fields)}; {n_reads} reads")
     res.floor = 6
     return res
+
+
+def _validated_in_callers(ctx: Ctx, A: Anchors, seen: dict, f: Func, depth: int) -> bool:
+    """Every call of ``f`` from the callables handed to SciPy (and their private pieces) happens after the point
+    validation: in the calling function the validating call precedes the call of ``f`` on every path, or the caller is
+    itself a private piece whose every call is validated."""
+    V = A.validator
+    sites = [(g, c) for g, c in ctx.cg.callers(f) if g.qualname in seen and g is not f]
+    if not sites or depth > 3:
+        return False
+    for g, c in sites:
+        cfg = cfg_of(ctx.repo, g)
+        pf = PathFinder(cfg, dataflow_of(ctx.repo, g))
+        vnodes = set()
+        for call, cs, _k in ctx.cg.all_callees(g):
+            if any(_reaches(ctx, h, V) for h in cs):
+                vnodes.update(cfg.node_containing(call))
+        unvalidated = False
+        for cn in cfg.node_containing(c):
+            if cn in vnodes:
+                continue
+            if pf.find_path(cfg.entry, lambda m, cn=cn: m is cn, blocked=lambda m: m in vnodes) is not None:
+                unvalidated = True
+        if unvalidated:
+            if g in A.entries or g is V or not _validated_in_callers(ctx, A, seen, g, depth + 1):
+                return False
+    return True
 
 
 # --------------------------------------------------------------------- C07.2
